@@ -50,6 +50,22 @@ def case_strategy():
             for name, f in c["tree"].items():
                 if name != "ind.h" and not name.endswith((".h", ".hpp")):
                     f["items"] = [["include", "quote", os.path.relpath("ind.h", os.path.dirname(name) or ".")]] + f["items"]
+        # a "flat" configuration header (only #define lines, no guard) included first by every compiled
+        # file, which then tests the macro: every translation unit must see it afresh
+        if draw(st.booleans()):
+            c["tree"]["flatcfg.h"] = {"items": [["define", "FLATCFG", "1"], ["undef", "FLATAUX"], ["define", "FLATAUX", "2"], ["code", 1]], "style": [0]}
+            for name, f in c["tree"].items():
+                if name != "flatcfg.h" and not name.endswith((".h", ".hpp")):
+                    f["items"] = [["include", "quote", os.path.relpath("flatcfg.h", os.path.dirname(name) or ".")], ["chain", [["if", ["cmp", "FLATCFG", "==", 1], [["code", 1]]]], [["code", 1]]]] + f["items"]
+        # CUDA files compiled several times with different architecture lists (passes selected per command)
+        cus = sorted(n for n in c["tree"] if n.endswith(".cu"))
+        if cus and draw(st.booleans()):
+            for n in cus:
+                c["tree"][n]["items"] = [["chain", [["if", ["and", ["defined", "__CUDA_ARCH__", True], ["cmp", "__CUDA_ARCH__", "<", 800]], [["code", 1]]], ["elif", ["defined", "__CUDA_ARCH__", True], [["code", 1]]]], [["code", 1]]]] + c["tree"][n]["items"]
+            pn = draw(st.sampled_from(sorted(c["platforms"])))
+            for _ in range(draw(st.integers(2, 3))):
+                arch = draw(st.sampled_from([["--gpu-code=sm_80"], ["--gpu-code=sm_90"], ["--gpu-architecture=compute_75", "--gpu-code=sm_75"], ["-gencode", "arch=compute_89,code=sm_89"], []]))
+                c["platforms"][pn].append({"file": draw(st.sampled_from(cus)), "defines": [], "dirs": [], "forced": [], "extra_flags": arch})
         c["perm_seed"] = draw(st.integers(0, 10**6))
         c["subset_mask"] = draw(st.integers(1, 15))
         return c
